@@ -152,6 +152,21 @@ def impl(line: str) -> str:  # noqa: PLR0911, PLR0912
             return "ok other -"
         if op == "spk.addr":
             return "ok " + T(spkmod.address(unhx(t[1]), t[2]))
+        if op == "wif.enc":
+            return "ok " + T(b58.wif_from_prv_key(int(t[2]), t[1], t[3] == "True"))
+        if op == "wif.dec":
+            from btclib.to_prv_key import prv_keyinfo_from_prv_key
+            q, n, c = prv_keyinfo_from_prv_key(unT(t[1]))
+            return f"ok {q} {n} {c}"
+        if op == "xkey.dec":
+            from btclib.bip32 import BIP32KeyData
+            d = BIP32KeyData.b58decode(unT(t[1]), check_validity=False)
+            return f"ok {hx(d.version)} {d.depth} {hx(d.parent_fingerprint)} {d.index} {hx(d.chain_code)} {hx(d.key)}"
+        if op == "xkey.enc":
+            from btclib.bip32 import BIP32KeyData
+            d = BIP32KeyData(version=unhx(t[1]), depth=int(t[2]), parent_fingerprint=unhx(t[3]), index=int(t[4]),
+                             chain_code=unhx(t[5]), key=unhx(t[6]), check_validity=False)
+            return "ok " + T(d.b58encode(check_validity=False))
         if op == "spk.from":
             s = ScriptPubKey.from_address(unT(t[1]))
             return f"ok {hx(s.script)} {s.network}"
@@ -824,6 +839,45 @@ def run(ctx):  # noqa: PLR0912, PLR0915
     for _ in range(ctx.n(60)):
         q = rng.choice([1, 2, n_order - 1, rng.randrange(1, n_order), rng.randrange(1, 1 << 200)])
         ctx.check("wif.roundtrip", {"q": q, "net": rng.choice(NETS), "compr": rng.random() < 0.5})
+    # model streams: WIF and xkey text (payload layouts through the Base58Check envelope)
+    lines, wifs = [], []
+    for _ in range(ctx.n(120)):
+        q = rng.choice([1, n_order - 1, rng.randrange(1, n_order), rng.randrange(1, 1 << 100)])
+        net, compr = rng.choice(NETS), rng.random() < 0.5
+        lines.append(f"wif.enc {net} {q} {compr}")
+        wifs.append(b58.wif_from_prv_key(q, net, compr))
+    for w in wifs:
+        lines.append(f"wif.dec {T(w)}")
+    for _ in range(ctx.n(150)):  # payloads of the wrong size, wrong flag, unknown prefix, key out of range
+        pre = rng.choice([b"\x80", b"\xef", b"\x80", b"\x00", b"\x81"])
+        key = rng.choice([rng.randrange(1, n_order), 0, n_order, n_order + 1, 1]).to_bytes(32, "big")
+        tail = rng.choice([b"", b"\x01", b"\x01", b"\x00", b"\x02", b"\x01\x01"])
+        body = rng.choice([key, key, key, key[1:], key + b"\x00"])
+        lines.append(f"wif.dec {T(base58.encode(pre + body + tail).decode())}")
+    for w in wifs[: ctx.n(3, 20)]:
+        for kind, bad in mutations(w, list(B58A), list("0 "), sub_positions=range(0, len(w), 7)):
+            lines.append(f"wif.dec {T(bad)}")
+    ctx.stream("wif", lines)
+    lines = []
+    for _ in range(ctx.n(100)):
+        ver = rng.choice([bytes.fromhex("0488ade4"), bytes.fromhex("0488b21e"), bytes.fromhex("043587cf"),
+                          common.rand_bytes(rng, 4)])
+        depth = rng.choice([0, 1, 255])
+        key = rng.choice([b"\x00" + common.rand_bytes(rng, 32), b"\x02" + common.rand_bytes(rng, 32)])
+        line = (f"xkey.enc {hx(ver)} {depth} {hx(common.rand_bytes(rng, 4))} {rng.getrandbits(32)} "
+                f"{hx(common.rand_bytes(rng, 32))} {hx(key)}")
+        lines.append(line)
+        out = impl(line)
+        if out.startswith("ok"):
+            xs = unT(out.split(" ")[1])
+            lines.append(f"xkey.dec {T(xs)}")
+            k = rng.randrange(len(xs))
+            lines.append(f"xkey.dec {T(xs[:k] + rng.choice(B58A) + xs[k + 1:])}")
+            lines.append(f"xkey.dec {T(' ' + xs + ' ')}")
+    for n in (0, 4, 77, 79, 82):  # well-checksummed payloads of the wrong size
+        lines.append(f"xkey.dec {T(base58.encode(common.rand_bytes(rng, n)).decode())}")
+    ctx.stream("xkey", lines)
+
     from btclib.network import xprvversions_from_network, xpubversions_from_network
     for net in NETS:
         for is_prv, vers in ((True, xprvversions_from_network(net)), (False, xpubversions_from_network(net))):
